@@ -25,7 +25,7 @@ COMMENT_LINE_REGEX = re.compile(r"^\s*;\s*(?P<comment>.*)$")
 
 # Pattern to parse a single line
 ASM_LINE_REGEX = re.compile(
-    r"^(?P<label>[\w@]*)\s+(?P<mnemonic>\w*)\s+(?P<operands>[\w\[\]><'\"@:,.#?$%^&*()=!+\-/]*)\s*;*(?P<comment>.*)$"
+    r"^(?P<label>[\w@]*)\s+(?P<mnemonic>\w*)(?:\s+(?P<operands>[\w\[\]><'\"@:,.#?$%^&*()=!+\-/]*)|(?=;|$))\s*;*(?P<comment>.*)$"
 )
 
 # Pattern to parse a line that defines a delimited string
@@ -126,7 +126,7 @@ class Statement(object):
             self.instruction = next((op for op in INSTRUCTIONS if op.mnemonic == self.mnemonic), None)
             self.original_operand = copy(self.operand)
             if not self.instruction:
-                self.original_operand = BadInstructionOperand(data.group("operands"), self.instruction)
+                self.original_operand = BadInstructionOperand(data.group("operands") or "", self.instruction)
                 self.comment = data.group("comment")
                 raise ParseError("[{}] invalid mnemonic".format(self.mnemonic), line)
             if self.instruction.is_string_define:
@@ -146,7 +146,7 @@ class Statement(object):
                 self.is_empty = False
             else:
                 try:
-                    self.operand = Operand.create_from_str(data.group("operands"), self.instruction)
+                    self.operand = Operand.create_from_str(data.group("operands") or "", self.instruction)
                     self.original_operand = copy(self.operand)
                     self.comment = data.group("comment").strip() or ""
                     self.is_empty = False
